@@ -315,7 +315,10 @@ def run_model(spec, rec):
     install_markers(state)
     wit0 = {"driver": spec["driver"], "logging_interval": spec["li"], "declared_mode": spec.get("fmode", "a"), "seed": seed, "steps": spec["steps"]}
     try:
-        # split the run to exercise repeated irun entries as well
+        # split the run to exercise repeated irun entries as well; every other shard starts with a zero-length call
+        # (dump the initial state, then run): header and step-0 records must still be there exactly once
+        if spec.get("fmode", "a") == "w" or spec["li"] == 3:
+            mc.run(0)
         mc.run(spec["steps"] // 2)
         mc.run(spec["steps"] - spec["steps"] // 2)
     except Exception as ex:  # noqa: BLE001
